@@ -7,6 +7,7 @@ mod mir;
 mod report;
 mod rules;
 mod srcmodel;
+mod gnf;
 mod inline;
 mod normalize;
 mod tables;
@@ -111,6 +112,25 @@ fn main() {
                 }
             }
             println!("{}", serde_json::to_string_pretty(&serde_json::Value::Object(out)).unwrap());
+        }
+        Some("dump-grammar-normal-form") => {
+            // development aid: regenerate refdata/grammar_normal_form.json from the reviewed grammar
+            let verif = std::env::var("VERIF_DIR").unwrap_or_else(|_| "/verif".into());
+            let names: serde_json::Value = serde_json::from_str(&std::fs::read_to_string(std::path::Path::new(&verif).join("refdata/nonterminals.json")).unwrap()).unwrap();
+            let reviewed: std::collections::BTreeSet<String> = names.as_array().unwrap().iter().filter_map(|r| r.get(0)?.as_str().map(|s| s.to_string())).collect();
+            match tables::load_grammar(&repo) {
+                Ok(g) => match gnf::normal_form(&g, &reviewed) {
+                    Ok(nf) => println!("{}", serde_json::to_string_pretty(&nf).unwrap()),
+                    Err(e) => {
+                        eprintln!("{}", e);
+                        std::process::exit(1)
+                    }
+                },
+                Err(e) => {
+                    eprintln!("{}", e);
+                    std::process::exit(1)
+                }
+            }
         }
         Some("dump-expr-wiring") => {
             // development aid: regenerate refdata/expr_wiring.json from the reviewed grammar
